@@ -303,7 +303,8 @@ RowClauses4(S, A, R, n, ph, r, sup, sel, kids, tol, ta, T) ==
         THEN DIsZero(r.pwr) /\ EqX(r.loss, DAbs(r.vin) \otimes r.iin, r.loss, thru)
         ELSE DIsZero(r.loss) /\ EqX(r.pwr, DAbs(r.vin) \otimes r.iin, r.pwr, thru)),
      Cl("C02.Energy.Row", ~load,
-        DLeq(DAbs((r.pwr \ominus r.loss) \ominus handed), TolS(DMax(r.pwr, handed), tol))),
+        DLeq(DAbs((r.pwr \ominus r.loss) \ominus handed),
+             TolP(DAbs(r.vin) \oplus DAbs(r.vout), r.iin \oplus r.iout, DMax(r.pwr, handed), tol))),
      Cl("C02.LossRange",  TRUE,
         /\ DLeq(DNeg(TolS(r.pwr, tol)), r.loss)
         /\ (~load => DLeq(r.loss, r.pwr \oplus TolS(r.pwr, tol)))),
@@ -385,7 +386,9 @@ PhaseClauses(S, A, R, ph, tol) ==
       pld  == DSumSet(Rp, lds, "pwr")
       lss  == DSumSet(Rp, N, "loss")
   IN << Cl("C02.Energy.System", ok,
-           DLeq(DAbs(psrc \ominus (pld \oplus lss)), DInt(Cardinality(N)) \otimes TolS(psrc, tol))) >>
+           DLeq(DAbs(psrc \ominus (pld \oplus lss)),
+                DInt(Cardinality(N)) \otimes TolP(DSumSet([n \in N |-> [x |-> DAbs(Rp[n].vin) \oplus DAbs(Rp[n].vout)]], N, "x"),
+                                                  DSumSet([n \in N |-> [x |-> Rp[n].iin \oplus Rp[n].iout]], N, "x"), psrc, tol))) >>
 
 RECURSIVE FlatMap(_, _)
 FlatMap(f, s) == IF s = <<>> THEN <<>> ELSE f[Head(s)] \o FlatMap(f, Tail(s))
